@@ -16,7 +16,7 @@ from vcheck import coq_list
 
 HEADER = "From V.C11 Require Import Spec Model FineModel Run.\n"
 
-RD = {"_GET": "RSg GGet", "_POST": "RSg GPost", "_COOKIE": "RSg GCookie", "_SERVER": "RSg GServer",
+RD = {"_GET": "RSg GGet", "_POST": "RSg GPost", "_COOKIE": "RSg GCookie", "_SERVER": "RSg GServer", "_SERVERH": "RSg GServer",
       # $_REQUEST["id"]: the harness parses the form (as a form POST does), so http.Request.Form — which $_POST
       # is built from — also carries the query parameters and the POST part overrides the GET part on merge
       "_REQUEST": "RReq PPost", "_REQUESTP": "RReq PPost", "_REQUESTC": "RReq PCookie",
@@ -26,12 +26,14 @@ RD = {"_GET": "RSg GGet", "_POST": "RSg GPost", "_COOKIE": "RSg GCookie", "_SERV
       "cap_arr": "RLocal", "cap_set": "RLocal", "cap_get": "RLocal", "cap_cnt": "RLocal",
       # a closure created by the request, with static locals: fresh statics per closure value — private
       "clo_static": "RLocal",
+      # the response body is a JSON object written with $w->json(): the engine's verdict on the decoded body
+      "jsonbody": "RLocal",
       # per-request data through methods of the request object (all / only / except / query / Cookie header / formValue /
       # postFormValue / fullUrl / bind into a DTO with property defaults)
       "rall": "RObj", "ronly": "RObj", "rexcept": "RObj", "rqueryp": "RObj", "rcookie": "RObj", "rformval": "RObj",
       "rpostform": "RObj", "rurl": "RObj", "rbind": "RObj"}
 RACC = ["rall", "ronly", "rexcept", "rqueryp", "rcookie", "rformval", "rpostform", "rurl", "rbind"]
-GLOBAL_OF = {"_GET": "_GET", "_POST": "_POST", "_COOKIE": "_COOKIE", "_SERVER": "_SERVER",
+GLOBAL_OF = {"_GET": "_GET", "_POST": "_POST", "_COOKIE": "_COOKIE", "_SERVER": "_SERVER", "_SERVERH": "_SERVER",
              "_REQUEST": "_REQUEST", "_REQUESTP": "_REQUEST", "_REQUESTC": "_REQUEST"}
 SG = ["_GET", "_POST", "_COOKIE", "_SERVER", "_REQUEST", "_REQUESTP", "_REQUESTC"]
 PRIV = ["rquery", "rheader", "local", "arr", "obj", "clo", "loop", "clo_static"] + RACC
@@ -184,10 +186,22 @@ def gated_cases(rng, tier):
         for sch in interleavings([3, 3]):
             cases.append({"segs": accprog, "nreq": 2, "schedule": list(sch), "route": "mux", "mw": mw, "warmup": mw == 0, "gen": "request-methods-2x2"})
         cases.append({"segs": accprog, "nreq": 3, "schedule": [0, 0, 1, 1, 1, 2, 2, 2, 0], "route": "mux", "mw": mw, "group": True, "warmup": True, "gen": "request-methods-parked"})
+    # an application mounted through the ANNOTATION router ($server->boot: #[Controller] + #[PostMapping] + #[Middleware(C)]):
+    # the middleware is a CLASS that keeps the id of the request it serves on $this between its two halves.  Serial orders
+    # (superglobals included: the route must reset the caches at entry, fix da364f3), all 2x2 interleavings, parked shapes
+    for prog in ([["local", "rquery"], ["arr", "obj", "clo"]], [["_GET", "local"], ["_GET", "rheader"]]):
+        for order in itertools.permutations(range(3)):
+            cases.append({"segs": prog, "nreq": 3, "schedule": [i for i in order for _ in range(3)], "route": "annot", "mw": 1, "warmup": True, "gen": "annotation-serial"})
+        for sch in interleavings([3, 3]):
+            cases.append({"segs": prog, "nreq": 2, "schedule": list(sch), "route": "annot", "mw": 1, "warmup": True, "gen": "annotation-2x2"})
+        for sch in ([0, 0, 1, 1, 1, 2, 2, 2, 0], [0, 1, 2, 2, 1, 0, 0, 1, 2]):
+            cases.append({"segs": prog, "nreq": 3, "schedule": sch, "route": "annot", "mw": 1, "warmup": True, "gen": "annotation-parked"})
+    for sch in ([0, 0, 1, 1, 0, 1], [0, 1, 0, 1, 0, 1], [0, 0, 0, 1, 1, 1]):
+        cases.append({"segs": [["local"], ["rquery", "jsonbody"]], "nreq": 2, "schedule": sch, "route": "mux", "mw": 1, "warmup": True, "gen": "json-body"})
     # a server with onFormat() registered and no onError(): the formatter wrapper is the outermost layer of every route.
     # Serial requests (must be clean) over every superglobal, plain / behind a middleware / with the middleware reading
     # $_GET before $next; and the 2x2 interleavings of one program
-    sgprog = [["_GET", "_POST", "_COOKIE"], ["_SERVER", "_REQUEST", "_REQUESTP", "_REQUESTC", "local"]]
+    sgprog = [["_GET", "_POST", "_COOKIE", "_SERVERH"], ["_SERVER", "_REQUEST", "_REQUESTP", "_REQUESTC", "local", "_SERVERH"]]
     for mw, mwsg in ((0, False), (1, False), (1, True)):
         for order in itertools.permutations(range(3)):
             cases.append({"segs": sgprog, "nreq": 3, "schedule": [i for i in order for _ in range(4 if mwsg else 3)], "route": "mux", "mw": mw, "mwsg": mwsg,
@@ -203,9 +217,11 @@ def gated_cases(rng, tier):
         for sch in interleavings([4, 4]):
             cases.append({"segs": prog, "nreq": 2, "schedule": list(sch), "route": "mux", "mw": mw, "mwsg": True, "warmup": mw == 1, "gen": "middleware-sg-2x3"})
     # serial schedules in every order (must be clean)
-    prog = [["_GET", "_POST", "_COOKIE"], ["_SERVER", "_REQUEST", "_REQUESTP", "_REQUESTC", "local"]]
+    # (_SERVERH: an $_SERVER entry that only odd requests cause — HTTP_X_OPT —, absent for even ones; the warm-up 99 is odd)
+    prog = [["_GET", "_POST", "_COOKIE", "_SERVERH"], ["_SERVER", "_REQUEST", "_REQUESTP", "_REQUESTC", "local", "_SERVERH"]]
     for order in itertools.permutations(range(3)):
         cases.append({"segs": prog, "nreq": 3, "schedule": [i for i in order for _ in range(3)], "route": "handler", "gen": "serial"})
+        cases.append({"segs": prog, "nreq": 3, "schedule": [i for i in order for _ in range(3)], "route": "mux", "mw": 1, "warmup": True, "gen": "serial"})
     # seeded
     for _ in range(120 if tier == "quick" else 2500):
         nseg = rng.randint(1, 3)
@@ -267,6 +283,13 @@ def load_cases(rng, tier):
                       "rounds": 3 if tier == "quick" else 10, "route": "mux", "mw": n % 2, "cap": True, "warmup": True})
         cases.append({"segs": [["rbind", "rall", "clo_static", "ronly"], ["rexcept", "rqueryp", "rformval", "rurl", "rbind", "clo_static"]], "nreq": n, "gomaxprocs": procs,
                       "rounds": 3 if tier == "quick" else 10, "route": "mux", "mw": n % 2, "onformat": n % 16 == 0, "warmup": True})
+    # JSON bodies with string keys and values ($w->json): the encoder is Go code that no gate can stop inside, so this
+    # is a matter of real parallelism: many requests in flight on many OS threads
+    jprog = [["local", "rquery"], ["rall", "jsonbody"]]
+    for n, procs, rounds in ((32, 8, 4), (64, 16, 6)) if tier == "quick" else ((16, 4, 10), (32, 8, 20), (64, 16, 20), (128, 16, 20)):
+        cases.append({"segs": jprog, "nreq": n, "gomaxprocs": procs, "rounds": rounds, "route": "mux", "mw": 0, "warmup": True})
+        cases.append({"segs": jprog, "nreq": n, "gomaxprocs": procs, "rounds": rounds})
+    cases.append({"segs": progs[2], "nreq": 16, "gomaxprocs": 4, "rounds": 3 if tier == "quick" else 10, "route": "annot", "mw": 1, "warmup": True})
     return cases
 
 
